@@ -155,12 +155,24 @@ def make_genfunc(prog, made, st):
     return genfunc
 
 
-def run_case(case, factory_of, subclass=False):
+_EQ = {}
+
+
+def eq_class(o):
+    """The block's exception class with value-based equality (all instances equal, like a dataclass
+    exception without fields): identity, not equality, tells the block's exception from a new one."""
+    if o not in _EQ:
+        _EQ[o] = type(o + "Eq", (BLOCK[o],), {"__eq__": lambda s, x: type(s) is type(x), "__ne__": lambda s, x: type(s) is not type(x),
+                                                "__hash__": lambda s: 1})
+    return _EQ[o]
+
+
+def run_case(case, factory_of, subclass=False, eq=False):
     prog, o = case["prog"], case["o"]
     made, st = [], {"anext": 0, "athrow": 0, "aclose": 0}
     genfunc = make_genfunc(prog, made, st)
     cmf = factory_of(genfunc)
-    blockexc = (SUBCLASS[o] if subclass and o in SUBCLASS else BLOCK[o])() if o != "normal" else None
+    blockexc = (eq_class(o) if eq else SUBCLASS[o] if subclass and o in SUBCLASS else BLOCK[o])() if o != "normal" else None
     obs = {"bound": None, "entered": False}
 
     async def body():
@@ -223,7 +235,13 @@ INVARIANT Emit
 
 def prog_label(got, c):
     """Outcome label with the subclass name folded back (raise same type builds a subclass instance)."""
-    return got["label"].replace("IterationSub", "Iteration"), got["entered"]
+    return fold(got["label"]), got["entered"]
+
+
+def fold(label):
+    """Names of the derived exception classes folded back to the class of the grammar."""
+    label = label.replace("IterationSub", "Iteration")
+    return label[:-2] if label.startswith("new:") and label.endswith("Eq") else label
 
 
 def check(prop, tier, seed, into=None):
@@ -251,15 +269,25 @@ def check(prop, tier, seed, into=None):
                 got_sub = run_case(c, contextlib.asynccontextmanager, subclass=True)
                 if prog_label(got_sub, c) != prog_label(got, c):
                     mach.append({"case": {"prog": c["prog"], "o": c["o"] + "(subclass)"}, "expected": got, "twin": got_sub})
+            if c["o"] != "normal":      # ... and so does a class whose instances all compare equal
+                got_eq = run_case(c, contextlib.asynccontextmanager, eq=True)
+                if prog_label(got_eq, c) != prog_label(got, c):
+                    mach.append({"case": {"prog": c["prog"], "o": c["o"] + "(eq)"}, "expected": got, "twin": got_eq})
             # contextlib closes the generator once more after 'did not stop': not a resume of the body
             if {x: got[x] for x in ("label", "entered")} != {x: exp[x] for x in ("label", "entered")}:
                 mach.append({"case": {"prog": c["prog"], "o": c["o"]}, "expected": exp, "twin": got})
         else:
-            runs = [run_case(c, L.contextmanager)] + ([run_case(c, L.contextmanager, subclass=True)] if c["o"] in SUBCLASS else [])
+            runs = [("", run_case(c, L.contextmanager))]
+            if c["o"] in SUBCLASS:
+                runs.append(("(subclass)", run_case(c, L.contextmanager, subclass=True)))
+            # (not for GeneratorExit: the closing rule of asyncstdlib is stated for the class itself -- the
+            #  block outcomes of C13 -- and a derived class, which the variant needs, takes the contextlib path)
+            if c["o"] not in ("normal", "GeneratorExit"):
+                runs.append(("(instances-compare-equal)", run_case(c, L.contextmanager, eq=True)))
             n["impl"] += len(runs)
-            for got, sub in zip(runs, ("", "(subclass)")):
+            for sub, got in runs:
                 cfg = {"prog": c["prog"], "block": c["o"] + sub}
-                got = dict(got, label=got["label"].replace("IterationSub", "Iteration"))   # `raise type(exc)()` builds the subclass
+                got = dict(got, label=fold(got["label"]))   # `raise type(exc)()` builds an instance of the derived class
                 if got["entered"] != exp["entered"]:
                     v.violation(f"C13/contextmanager/enter-{got['entered']}-instead-of-{exp['entered']}", {"engine": "ctxmgr", "cfg": cfg, "expected": exp, "observed": got})
                 elif got["label"] != exp["label"]:
